@@ -644,6 +644,7 @@ def caller_cases(dims, lat, q):
 # these oracle coordinates are computed from (R, u) directly, so they are well conditioned for large R.
 # ------------------------------------------------------------------------------------------
 FAR_RADII = [3.0, 5.0, 7.0, 9.0, 10.0, 11.0, 12.0, 14.0]
+VERY_FAR_RADII = [15.0, 16.0, 17.0, 18.0]   # only "never NaN, finite, non-negative" is demanded there
 FAR_NEAR = [0.0, 1e-3, 1e-1]     # same-ray partners at distance s beyond the point (0.0: the point itself)
 FAR_START = ["hyperboloid", "projective", "poincare", "halfspace", "klein"]
 
@@ -677,7 +678,11 @@ def case_far(case):
     # conditioning: recovering 1-|k|^2 = 1/cosh^2 R from rounded Klein (or Poincare) coordinates costs eps*cosh^2 R
     # relative; start models that store the point that way are only required to that accuracy
     cond = 1.0 + 4e-6 * math.cosh(R) ** 2        # eps * cosh^2 R / 1e-9, with a factor 10 of head-room
-    for m in list(hyp.MODELS) + ["poincare"]:
+    very_far = bool(case.get("very_far"))
+    # very far points (R >= 15: eps cosh^2 R >= 6e-4, no digits left for values): only "a distance is a finite
+    # non-negative number, never NaN" is demanded, for the point against itself and against equal copies entered
+    # through other models / representatives
+    for m in ([] if very_far else list(hyp.MODELS) + ["poincare"]):
         got = np.asarray(pt.coords(m), dtype=float)
         t += 1
         w = want["hyperboloid" if m == "projective" else m]
@@ -724,7 +729,7 @@ def case_far(case):
     # that accuracy -- not to the sqrt(2 eps cosh^2 R) of an arccosh(<x,y>) evaluated at 1 + rounding -- and it must
     # be a finite, non-negative number, never NaN
     zero_class = 0
-    for s in FAR_NEAR:
+    for s in (FAR_NEAR[:1] if very_far else FAR_NEAR):
         w2 = far_oracle(R + s, u)
         delta = 16.0 * EPS * math.cosh(R) * math.cosh(R + s)
         # + displacement of a point entered in Klein/Poincare/half-space coordinates (1-|k|^2 known to eps cosh^2 R)
@@ -745,6 +750,8 @@ def case_far(case):
                     v.append({"key": "far/near/nan/%s" % cls, "msg": "%s: distance to %s%s is NaN (expected %g)" % (where, label, order, s)})
                 elif not (np.isfinite(d) and d >= 0.0):
                     v.append({"key": "far/near/not-finite-nonnegative/%s" % cls, "msg": "%s: distance to %s%s is %r" % (where, label, order, d)})
+                elif very_far:
+                    continue
                 elif other is pt and not d <= TOL:
                     v.append({"key": "far/near/value/same-object", "msg": "%s: distance to itself%s is %r (the same object on both sides: expected 0, tol %.1g)" % (where, order, d, TOL)})
                 elif not abs(d - s) <= tol:
@@ -762,7 +769,7 @@ def case_far(case):
 # ------------------------------------------------------------------------------------------
 # point histories (mixed interior / ideal composites): what a Point reports follows its current data
 # ------------------------------------------------------------------------------------------
-PH_OPS = ["q", "set0", "setlast", "apply", "rebuild", "reverse", "index0"]
+PH_OPS = ["q", "qiso", "set0", "setlast", "apply", "rebuild", "viaklein", "reverse", "index0"]
 
 
 def _ph_check(P, K, ideal, who, v):
@@ -828,6 +835,17 @@ def case_point_history(case):
                     P.coords(m)
                 except Exception:
                     pass
+        elif op == "qiso":
+            # queries that normalise rows of the stored data in place (results discarded; ideal units make some of them raise)
+            for f in (lambda: P.origin_to(), lambda: P.distance(P), lambda: P.hyperboloid_coords()):
+                try:
+                    with np.errstate(all="ignore"):
+                        f()
+                except Exception:
+                    pass
+        elif op == "viaklein":
+            # the same points entered again through their Klein coordinates (affine-chart route of the constructor)
+            P = hyperbolic.Point(np.array(K, dtype=float), model="klein")
         elif op in ("set0", "setlast"):
             if len(P.shape) == 0:
                 return {"v": [], "t": t, "o": "n/a", "nt": False}
@@ -858,7 +876,7 @@ def case_point_history(case):
 
 
 def point_history_cases(dims, seed):
-    seqs = [[]] + [list(x) for d in (1, 2, 3) for x in itertools.product(PH_OPS, repeat=d) if x[-1] != "q"]
+    seqs = [[]] + [list(x) for d in (1, 2, 3) for x in itertools.product(PH_OPS, repeat=d) if x[-1] not in ("q", "qiso")]
     for n in dims:
         for mixed in (False, True):
             for ops in seqs:
@@ -878,6 +896,10 @@ def far_cases(dims, seed, q):
                     break
             for start in FAR_START:
                 yield {"n": n, "R": R, "u": u, "start": start, "partners": [[r, d] for r, d in partners]}
+        for R in VERY_FAR_RADII:
+            for u in dirs[:3 if q else 8]:
+                for start in FAR_START:
+                    yield {"n": n, "R": R, "u": u, "start": start, "partners": [], "very_far": True}
 
 
 # ------------------------------------------------------------------------------------------
